@@ -12,6 +12,10 @@ void *memrchr(const void *s, int c, size_t n) {
 	const unsigned char *src = (const unsigned char *) s + n - 1;
 	unsigned char d = c;
 
+	if (n == 0) {
+		return NULL;
+	}
+
 	do {
 		if (*src == d) {
 			return (void *) src;
